@@ -24,7 +24,7 @@ REASONS = ["", "bye", "x" * 122, "x" * 123, "x" * 124, "x" * 200, "x" * 122 + "Ã
 
 
 def plan(tier, seed):
-    n = 450 if tier == "quick" else 3000
+    n = 450 if tier == "quick" else 8000
     jobs = []
     for i, fw in enumerate(("twisted", "asyncio")):
         for sh in range(4 if tier == "quick" else 8):
